@@ -26,6 +26,9 @@ type ConcTx struct {
 	W      bool     `json:"w,omitempty"`
 	Keys   []string `json:"keys,omitempty"`
 	Manual bool     `json:"manual,omitempty"`
+	// Fail makes a write transaction end without committing: "fnerr" (the function returns an error after its
+	// writes) or "big" (it also puts an entry larger than a segment, so Commit itself fails).
+	Fail string `json:"fail,omitempty"`
 }
 
 type ConcG struct {
@@ -79,6 +82,14 @@ func genConcProg(maxG int, modes []int, merge, backup bool) *rapid.Generator[Cas
 				case 2:
 					tx.W = rapid.Bool().Draw(t, "w")
 				}
+				if tx.W {
+					switch rapid.IntRange(0, 13).Draw(t, "fail") {
+					case 5:
+						tx.Fail = "big"
+					case 9:
+						tx.Fail = "fnerr"
+					}
+				}
 				nk := rapid.IntRange(1, 3).Draw(t, "nk")
 				perm := rapid.Permutation(concKeys).Draw(t, "kperm")
 				tx.Keys = perm[:nk]
@@ -119,6 +130,7 @@ type concRec struct {
 	Err      string
 	Kind     string // "", backup
 	Dir      string
+	Fail     string // the transaction was meant to fail (it must not commit)
 }
 
 func atoi(b []byte) int {
@@ -260,7 +272,7 @@ func runConc(c Case, dirs []string, dbs []*nutsdb.DB, backupRoot string) concRes
 				return
 			}
 			for i, t := range g.Txs {
-				r := concRec{G: gi, I: i, DB: g.DB, W: t.W}
+				r := concRec{G: gi, I: i, DB: g.DB, W: t.W, Fail: t.Fail}
 				body := func(tx *nutsdb.Tx) error {
 					if t.W {
 						v, _ := readVer(tx)
@@ -291,6 +303,14 @@ func runConc(c Case, dirs []string, dbs []*nutsdb.DB, backupRoot string) concRes
 						r.Vals = map[string]int{}
 						for _, k := range t.Keys {
 							r.Vals[k] = nv
+						}
+						switch t.Fail {
+						case "big":
+							if err := tx.Put("d", []byte("big"), make([]byte, c.Cfg.Seg+1), 0); err != nil {
+								return err
+							}
+						case "fnerr":
+							return errFn
 						}
 						return nil
 					}
@@ -373,6 +393,12 @@ func checkConc(recs []concRec, db int, structs, noList bool, final map[string]in
 			}
 			readers = append(readers, r)
 			continue
+		}
+		if r.Fail != "" {
+			if r.Err == "" {
+				return fmt.Errorf("transaction g%d/%d (%s) reported success although it had to fail", r.G, r.I, r.Fail)
+			}
+			continue // a failed transaction is not part of the history; its writes must not show (versions stay 1..W)
 		}
 		if r.Err != "" {
 			return fmt.Errorf("transaction g%d/%d failed: %s", r.G, r.I, r.Err)
